@@ -804,6 +804,120 @@ func (g *gen) randTIOp(alpha []string, unstable bool) []tiOp {
 	}
 }
 
+// exactly n clusters of the alphabet
+func (g *gen) textN(alpha []string, n int) string {
+	var b strings.Builder
+	for i := 0; i < n; i++ {
+		b.WriteString(g.pick(alpha))
+	}
+	return b.String()
+}
+
+// n clusters entering the field with no frame in between: SetContent (replaces), a
+// bracketed paste in 1..3 chunks, one key event carrying the whole text, or n key events
+func (g *gen) fillOps(alpha []string, n int, how int) []tiOp {
+	r := g.cfg.Rand
+	switch how % 4 {
+	case 0:
+		return []tiOp{{kind: "setcontent", s: g.textN(alpha, n)}}
+	case 1:
+		out := []tiOp{{kind: "other"}}
+		for left, k := n, 1+r.Intn(3); left > 0; k-- {
+			c := left
+			if k > 1 {
+				c = 1 + r.Intn(left)
+			}
+			out = append(out, tiOp{kind: "pastechunk", s: g.textN(alpha, c)})
+			left -= c
+		}
+		return append(out, tiOp{kind: "pasteend"})
+	case 2:
+		if n == 0 {
+			return nil
+		}
+		return []tiOp{{kind: "text", s: g.textN(alpha, n)}}
+	default:
+		var out []tiOp
+		for i := 0; i < n; i++ {
+			out = append(out, tiOp{kind: "text", s: g.pick(alpha), variant: r.Intn(3)})
+		}
+		return out
+	}
+}
+
+// operations that bring the cursor to (or near) the start of the line or empty the field
+func (g *gen) rewindOps(which int) []tiOp {
+	r := g.cfg.Rand
+	rep := func(kind string, n int) []tiOp {
+		var out []tiOp
+		for i := 0; i < n; i++ {
+			out = append(out, tiOp{kind: kind, variant: r.Intn(2)})
+		}
+		return out
+	}
+	switch which % 8 {
+	case 0:
+		return []tiOp{{kind: "killstart"}}
+	case 1:
+		return []tiOp{{kind: "setcontent", s: ""}}
+	case 2:
+		return []tiOp{{kind: "home", variant: r.Intn(2)}}
+	case 3:
+		return []tiOp{{kind: "home"}, {kind: "killend"}}
+	case 4:
+		return rep("killword", 1+r.Intn(6))
+	case 5:
+		return rep("wordb", 1+r.Intn(6))
+	case 6:
+		return rep("backspace", 1+r.Intn(40))
+	default:
+		return rep("left", 1+r.Intn(40))
+	}
+}
+
+// Frame histories: ONE model drawn several times.  The scroll offset survives between
+// frames, so what a frame shows depends on the frames before it: a line that scrolled, then
+// an operation that rewinds the cursor or empties the field, a frame (or none) in that
+// state, then material that arrives with no frame in between, then a frame in which
+// everything fits (or not).
+func (g *gen) frameHistory(alpha []string, prompt string) []tiOp {
+	r := g.cfg.Rand
+	pw := 0
+	for _, c := range chars(prompt) {
+		pw += c.Width
+	}
+	var ops []tiOp
+	w := pw + 5 + r.Intn(40)
+	for round := 1 + r.Intn(3); round > 0; round-- {
+		if r.Intn(3) == 0 {
+			w = pw + 5 + r.Intn(40)
+		}
+		ops = append(ops, g.fillOps(alpha, r.Intn(w+25), r.Intn(4))...)
+		if r.Intn(3) == 0 {
+			ops = append(ops, g.randTIOp(alpha, false)...)
+		}
+		ops = append(ops, tiOp{kind: "draw", w: w})
+		ops = append(ops, g.rewindOps(r.Intn(8))...)
+		switch r.Intn(6) {
+		case 0: // no frame in the rewound state
+		case 1:
+			ops = append(ops, tiOp{kind: "draw", w: tiWidths[r.Intn(len(tiWidths))]})
+		default:
+			ops = append(ops, tiOp{kind: "draw", w: w})
+		}
+		ops = append(ops, g.fillOps(alpha, r.Intn(w-pw+2), r.Intn(4))...)
+		if r.Intn(4) == 0 {
+			ops = append(ops, tiOp{kind: "end", variant: r.Intn(2)})
+		}
+		if r.Intn(4) == 0 {
+			ops = append(ops, tiOp{kind: "draw", w: tiWidths[r.Intn(len(tiWidths))]})
+		} else {
+			ops = append(ops, tiOp{kind: "draw", w: w})
+		}
+	}
+	return ops
+}
+
 func (g *gen) tiStream() (*hx.Stream, *hx.Stream) {
 	s := hx.NewStream("textinput", "model.Editors", "ti_case", "c17_ti_mismatches", "c17_ti_violations")
 	s.ShardMax = 400
@@ -831,6 +945,27 @@ func (g *gen) tiStream() (*hx.Stream, *hx.Stream) {
 		{kind: "end"}, {kind: "draw", w: 10}, {kind: "draw", w: 80}, {kind: "killword"}, {kind: "draw", w: 80}}, true, "ti-regress")
 	g.runTI(s, "", []tiOp{{kind: "setcontent", s: "ab \u4e16\u754c-cd  e\u0301f"}, {kind: "wordb"}, {kind: "wordb"}, {kind: "wordb"}, {kind: "wordb"}, {kind: "wordb"},
 		{kind: "wordf"}, {kind: "wordf"}, {kind: "wordf"}, {kind: "wordf"}, {kind: "killword"}, {kind: "killword"}, {kind: "killword"}}, true, "ti-regress")
+	// directed frame histories: a line wider than the window is drawn (the view scrolls), the
+	// cursor is rewound / the field emptied in every way the widget offers, that state is drawn
+	// or not, k graphemes arrive with no frame in between in every way the widget offers, and
+	// the result is drawn: k + margin fits the window, just fits, or does not
+	for _, w := range []int{12, 40} {
+		for rw := 0; rw < 8; rw++ {
+			for how := 0; how < 4; how++ {
+				for _, frame := range []bool{true, false} {
+					k := []int{w - 10, w - 6, w - 5, w - 2}[(rw+how)%4]
+					ops := []tiOp{{kind: "setcontent", s: g.textN([]string{"a", "b", "1", " ", "-"}, w+20)}, {kind: "draw", w: w}}
+					ops = append(ops, g.rewindOps(rw)...)
+					if frame {
+						ops = append(ops, tiOp{kind: "draw", w: w})
+					}
+					ops = append(ops, g.fillOps([]string{"a", "b", "1", " ", "-"}, k, how)...)
+					ops = append(ops, tiOp{kind: "draw", w: w})
+					g.runTI(s, []string{"", "> "}[rw%2], ops, true, "ti-frames-directed")
+				}
+			}
+		}
+	}
 	// bounded-exhaustive over a 14-operation alphabet from three starting contents
 	ex := []tiOp{{kind: "text", s: "b"}, {kind: "text", s: "\u754c"}, {kind: "text", s: "-"}, {kind: "left"}, {kind: "right", variant: 1},
 		{kind: "home"}, {kind: "end", variant: 1}, {kind: "wordf"}, {kind: "wordb", variant: 1}, {kind: "delete"}, {kind: "backspace"},
@@ -909,6 +1044,21 @@ func (g *gen) tiStream() (*hx.Stream, *hx.Stream) {
 		}
 		g.runTI(sl, tiPrompts[r.Intn(len(tiPrompts))], ops, true, "ti-draw")
 	}
+	// random frame histories (see frameHistory), half of them over narrow clusters only so
+	// that cluster counts and columns coincide
+	nFrames := 160
+	if g.cfg.Thorough() {
+		nFrames = 1600
+	}
+	narrow := []string{"a", "b", "Z", "1", "7", " ", "-", ".", "\u00e9"}
+	for i := 0; i < nFrames; i++ {
+		alpha := stableAlpha
+		if i%2 == 0 {
+			alpha = narrow
+		}
+		pr := tiPrompts[r.Intn(len(tiPrompts))]
+		g.runTI(sl, pr, g.frameHistory(alpha, pr), true, "ti-frames")
+	}
 	// not boundary-stable (and tabs, which vaxis.Characters expands): model against code
 	both := append(append([]string{}, stableAlpha...), unstableExtra...)
 	both = append(both, unstableExtra...)
@@ -943,7 +1093,9 @@ func main() {
 		"stable_alphabet": stableAlpha, "unstable_extra": unstableExtra}
 	cfg.Write("C17", "operation histories on a fresh TextField / textinput.Model, driven with real vaxis.Key, paste and other events and the exported methods; "+
 		"hand-written regressions, bounded-exhaustive sequences over a 12/14-operation alphabet from three starting contents, random histories over a boundary-stable cluster alphabet "+
-		"(narrow, wide, combining, ZWJ, flags, modifiers, jamo), Draw at widths 0..150 with several prompts, and histories over a NOT boundary-stable alphabet (model-vs-code only); "+
+		"(narrow, wide, combining, ZWJ, flags, modifiers, jamo), Draw at widths 0..150 with several prompts, frame histories on one model (a line that scrolled, the cursor rewound or the field emptied by every "+
+		"operation that can do it, that state drawn or not, material arriving by SetContent / paste / keys with no frame in between, then a frame in which it fits or not; directed and random), "+
+		"and histories over a NOT boundary-stable alphabet (model-vs-code only); "+
 		"non-trivial = a deletion/word operation/paste that changed the text or cursor, an insertion before the end (TextField), or a Draw that scrolled",
 		streams, extra, g.direct)
 	if g.hangs == 0 {
